@@ -264,6 +264,9 @@ def _idft2_by_value(chk, repo, fid, unitary, ulabel, a0, a1):
         chk.ob('C01-h', 'N-gain', 'fourier.idft2', f'inverse gain [{ulabel}, {conds_str(p)[:60]}]', verdict, det, f.loc(p.node))
 
 
+SECTIONED = ('run_check',)
+
+
 def run(chk, repo, tier):   # noqa: F811  (entry point; shadows rules.run deliberately)
     from .common import no_hidden_state
     no_hidden_state(chk, repo, 'C01')
